@@ -13,13 +13,12 @@ PARSE_LIMIT = "parser::Parser::parse_limit"
 def r1(ctx):
     hir = ctx.anchor_hir(INSERT)
     # statement order: count += 1, push, then the eviction test
-    top = hir["stmts"]
-    incs = [i for i, s in enumerate(top) if s["k"] == "AssignOp" and s["op"] == "+=" and render(s["l"]) == "self.count" and render(s["r"]) == "1"]
+    order = list(walk_exprs(hir))
+    incs = [i for i, s in enumerate(order) if s["k"] == "AssignOp" and s["op"] == "+=" and render(s["l"]) == "self.count" and render(s["r"]) == "1"]
     evict_if = None
-    for i, s in enumerate(top):
-        for x in walk_exprs(s):
-            if x["k"] == "If" and "self.count" in render(x["c"]) and "limit" in render(x["c"]) and peel(x["c"], methods=False)["k"] == "Bin":
-                evict_if = (i, x)
+    for c, body_, node in conditions(hir):
+        if "self.count" in render(c) and "limit" in render(c) and peel(c, methods=False)["k"] == "Bin":
+            evict_if = (next(i for i, s in enumerate(order) if s is c), {"c": c, "t": body_, "sp": node.get("sp", "?")})
     if not incs or evict_if is None:
         ctx.violation("anchor/topn-insert", INSERT, "count increment / eviction test of TopN::insert not found")
         raise Abort()
@@ -41,7 +40,7 @@ def r1(ctx):
                       (render(evict_if[1]["c"]), bad, "" if ok_order else " (count is not incremented before the test)"))
     body = evict_if[1]["t"]
     # inside the Some(limit) branch only
-    g = guards_of(hir, evict_if[1])
+    g = guards_of(hir, evict_if[1]["c"])
     some_guard = any(t[0] == "if" and "LetE" == peel(t[1], methods=False)["k"] and "self.limit" in render(t[1]) for t in g) or \
         any(t[0] == "match" and "self.limit" in render(t[1]) for t in g)
     ctx.obligation(some_guard)
@@ -165,42 +164,92 @@ def r3(ctx):
 
 
 def r4(ctx):
+    import interp
     hir = ctx.anchor_hir(NEW)
-    sel = None
-    for x in walk_exprs(hir):
-        if x["k"] == "If" and "limit" in render(x["c"]) and "e" in x and "TopN" in render(x["t"]) + render(x["e"]):
-            sel = x
-    ok = False
-    if sel is not None:
-        c = render(peel(sel["c"], methods=False))
-        t, e = render(peel_result(sel["t"])), render(peel_result(sel["e"]))
-        ok = (c == "(limit == 0)" and "limitless" in t and e == "TopN::new(limit)") or \
-             (c in ("(limit != 0)", "(limit > 0)") and "limitless" in e and t == "TopN::new(limit)")
+    # the value stored in Searcher.output_buffer, evaluated (finite interpreter) for query.limit = 0 and = 3
+    st = [x for x in walk_exprs(hir) if x["k"] == "Struct" and short(x.get("res"), 1) == "Searcher"]
+    ob = None
+    if st:
+        fs = {f["name"]: f["e"] for f in st[0]["fields"]}
+        ob = fs.get("output_buffer")
+
+    def call(node, recv, args, it, env):
+        callee = str(node.get("callee", ""))
+        if callee.endswith("TopN::limitless"):
+            return (("limitless",),)
+        if callee.endswith("TopN::new"):
+            return (("topn", args[0] if args else None),)
+        return None
+    res = {}
+    if ob is not None:
+        for L in (0, 3):
+            try:
+                res[L] = interp.eval_in(hir, ob, {"query": {"limit": L}}, call=call)
+            except interp.Undecided as e:
+                res[L] = "undecided: %s" % e
+    ok = res.get(0) == ("limitless",) and res.get(3) == ("topn", 3)
     ctx.obligation(ok)
-    ctx.covered("buffer selection in Searcher::new (0 -> limitless, n -> TopN::new(n))", 1, distinct_keys=[NEW])
+    ctx.covered("buffer selection in Searcher::new evaluated for limit 0 and limit 3 (0 -> limitless, n -> TopN::new(n))", 2, distinct_keys=[NEW], exhaustive=True)
     if not ok:
-        ctx.violation("new/topn-selection", ctx.where(NEW, sel), "limit 0 must select an unlimited buffer and limit n a TopN of n")
-    locs = Locals(hir)
-    # `limit` is query.limit
-    lim = [x for x in walk(hir) if x["k"] == "Let" and x["pat"].get("name") == "limit"]
-    ok = len(lim) == 1 and render(lim[0]["init"]) == "query.limit"
-    ctx.obligation(ok)
-    if not ok:
-        ctx.violation("new/limit-source", ctx.where(NEW), "the buffer limit is not the query's limit")
-    # implicit limit 1 only when no column needs a file
+        ctx.violation("new/topn-selection", ctx.where(NEW), "limit 0 must select an unlimited buffer and limit n a TopN of n; found %s" % res)
+    # implicit limit 1 only when the limit is 0 and no selected expression needs a file: the assignment's guard is evaluated on
+    # (limit, per-expression needs) with `get_required_fields().is_empty()` as the atom
     ph = ctx.anchor_hir(PARSE)
-    imp = [x for x in walk_exprs(ph) if x["k"] == "Assign" and render(x["l"]) == "limit"]
+    imp = [x for x in walk_exprs(ph) if x["k"] == "Assign" and render(x["l"]) == "limit" and render(x["r"]) == "1"]
     ok = False
-    if len(imp) == 1 and render(imp[0]["r"]) == "1":
+    why = "assignment `limit = 1` not found exactly once"
+    if len(imp) == 1:
         g = [t for t in guards_of(ph, imp[0]) if t[0] == "if"]
-        conds = " ".join(render(t[1]) for t in g)
-        ok = "(limit == 0)" in conds and "all(" in conds and "is_empty" in render(ph) or ("(limit == 0)" in conds and ".all(" in conds)
-        cl = [y for t in g for y in walk_exprs(t[1]) if y["k"] == "Closure"]
-        ok = ok and any("get_required_fields().is_empty()" in render(c["body"]) for c in cl)
+        ok = bool(g)
+        why = ""
+        NONE, some = interp.NONE, interp.some
+
+        def expr(field=False, left=None, right=None, args=None, function=False, val=None):
+            return {"field": some(interp.V("Field::Size")) if field else NONE, "left": some(left) if left else NONE, "right": some(right) if right else NONE,
+                    "args": some(args) if args is not None else NONE, "function": some(interp.V("Function::Concat")) if function else NONE,
+                    "val": some(val) if val is not None else NONE, "minus": False, "op": NONE, "logical_op": NONE,
+                    "arithmetic_op": some(interp.V("ArithmeticOp::Add")) if right else NONE}
+
+        def needs_file(e):
+            return e["field"] != NONE or any(needs_file(x.args[0]) for x in (e["left"], e["right"]) if x != NONE) or \
+                (e["args"] != NONE and any(needs_file(a) for a in e["args"].args[0]))
+        lit, fld = expr(val="1"), expr(field=True)
+        lists = {"no column": [], "literal": [lit], "column": [fld], "literal, column": [lit, fld], "two literals": [lit, expr(val="x")],
+                 "f(column)": [expr(function=True, left=fld)], "f(literal)": [expr(function=True, left=lit)],
+                 "f(literal, column)": [expr(function=True, left=lit, args=[fld])], "f(literal, literal)": [expr(function=True, left=lit, args=[lit])],
+                 "literal + column": [expr(left=lit, right=fld)], "literal + literal": [expr(left=lit, right=lit)]}
+        for L in (0, 2):
+            for lname, fields in lists.items():
+                def call2(node, recv, args, it, env):
+                    m = node.get("m")
+                    if m in ("iter", "into_iter", "as_ref", "as_slice") and isinstance(recv, list):
+                        return (recv,)
+                    if m in ("all", "any") and isinstance(recv, list) and node["args"]:
+                        f = it.ev(node["args"][0], env)
+                        vals = [it.apply(f, [x]) for x in recv]
+                        return ((all(vals) if m == "all" else any(vals)),)
+                    if m == "get_required_fields" and isinstance(recv, dict) and "field" in recv:
+                        return ({"__empty": not needs_file(recv)},)
+                    if m == "is_empty" and isinstance(recv, dict) and "__empty" in recv:
+                        return (recv["__empty"],)
+                    if m == "is_empty" and isinstance(recv, list):
+                        return (not recv,)
+                    return None
+                try:
+                    vals = [interp.eval_in(ph, t[1], {"limit": L, "fields": fields}, call=call2, prog=ctx.prog) == t[2] for t in g]
+                except interp.Undecided as e:
+                    ok = False
+                    why = "cannot evaluate the guard: %s" % e
+                    break
+                got = all(vals)
+                want = L == 0 and not any(needs_file(e) for e in fields)
+                if got != want:
+                    ok = False
+                    why = "with limit %d and the select list `%s` the limit is %sforced to 1" % (L, lname, "" if got else "not ")
     ctx.obligation(ok)
-    ctx.covered("implicit limit 1 for file-less select lists", 1, distinct_keys=[PARSE])
+    ctx.covered("implicit limit 1 for file-less select lists: guard evaluated on 2 limits x 11 select lists", 22, distinct_keys=[PARSE], exhaustive=True)
     if not ok:
-        ctx.violation("parse/implicit-limit", ctx.where(PARSE), "limit may be forced to 1 only when it is 0 and no selected expression needs a file")
+        ctx.violation("parse/implicit-limit", ctx.where(PARSE), "limit may be forced to 1 only when it is 0 and no selected expression needs a file (%s)" % why)
     # parse_limit: the number after `limit`, error otherwise
     lh = ctx.anchor_hir(PARSE_LIMIT)
     ok = any(c["k"] == "MCall" and c["m"] == "parse" for c in walk_exprs(lh)) and \
